@@ -11,8 +11,9 @@ package main
 //     that did not reach the backend was answered 429; attempts = backend
 //     calls + 429 answers.
 // (b) TestVerifC14TOTP: histories of right/wrong code attempts and time
-//     advances (time shifting of the stored instants), never inside the band
-//     around the 2 s threshold. Oracle: weak reference limiter (see c14Model).
+//     advances (time shifting of the stored instants); at the 2 s threshold a
+//     verdict is only taken when the interval the server can have measured is
+//     entirely on one side. Oracle: weak reference limiter (see c14Model).
 // (c) TestVerifC14TOTPConcurrent: k simultaneous presentations: at most one
 //     is evaluated as a success.
 
@@ -207,7 +208,7 @@ func c14GenTOTP(t *rapid.T) c14TOTPCase {
 			c.Ops = append(c.Ops, c14Op{Kind: "wrong"})
 		default:
 			// never inside the band around the 2 s threshold
-			d := rapid.SampledFrom([]int64{0, 300, 1000, 1500, 2500, 3000, 10000, 60000, 5 * 60000, 29 * 60000, 2 * 3600000, 26 * 3600000}).Draw(t, "delta")
+			d := rapid.SampledFrom([]int64{0, 300, 1000, 1250, 1500, 1700, 1850, 2000, 2100, 2500, 3000, 10000, 60000, 5 * 60000, 29 * 60000, 2 * 3600000, 26 * 3600000}).Draw(t, "delta")
 			c.Ops = append(c.Ops, c14Op{Kind: "advance", Delta: d})
 		}
 	}
@@ -248,8 +249,12 @@ func c14CheckTOTP(c c14TOTPCase) *vResult {
 	// reference limiter (deliberately weaker than any particular arithmetic).
 	// mode: "normal" (fails < 5 known), "locked" (5th consecutive failure at
 	// lockedAt), "unknown" (nothing asserted but the spacing until a success)
-	var virt time.Duration              // virtual time
-	lastGate := time.Duration(-1 << 62) // virtual time of the last attempt that passed the 2 s gate
+	var virt time.Duration // virtual time
+	// the last attempt that passed the 2 s gate: the server stamped it at a real
+	// instant within [gate0, gate1]; advSinceGate is the virtual time added since
+	var gate0, gate1 time.Time
+	var advSinceGate time.Duration
+	haveGate := false
 	mode := "normal"
 	fails := 0
 	var lastFail, lockedAt time.Duration
@@ -260,6 +265,7 @@ func c14CheckTOTP(c c14TOTPCase) *vResult {
 			d := time.Duration(op.Delta) * time.Millisecond
 			c14Shift(w, vUserAlice, d)
 			virt += d
+			advSinceGate += d
 			shape += "a"
 			continue
 		}
@@ -274,13 +280,33 @@ func c14CheckTOTP(c c14TOTPCase) *vResult {
 		}
 		req := vFormRequest("POST", totpAuthPath, url.Values{"OTP": {code}})
 		w.applyCred(req, vCred{Kind: "cookie", Bits: AuthTypePassword}, vUserAlice)
+		t0 := time.Now()
 		resp := vServe(w.state.TOTPAuthHandler, req)
+		t1 := time.Now()
 		if resp.Panic != "" {
 			res.violate("panic:totp", "TOTPAuth panicked: %s", firstLine(resp.Panic))
 			return res
 		}
 		accepted := resp.Code == 200
-		sinceGate := virt - lastGate
+		// what the server can have measured since the last evaluated attempt lies
+		// in [lower, upper]; the verdict is only taken when both agree
+		sinceGate := time.Duration(1 << 62)
+		if haveGate {
+			lower := advSinceGate + t0.Sub(gate1)
+			upper := advSinceGate + t1.Sub(gate0)
+			switch {
+			case upper < 2*time.Second:
+				sinceGate = upper
+			case lower >= 2*time.Second:
+				sinceGate = lower
+			default:
+				// too close to the threshold to call on this machine right now
+				res.Desc = shape + "|band"
+				res.label("ended-in-threshold-band")
+				res.NonTrivial = nFails >= 5 || nSpacing > 0
+				return res
+			}
+		}
 		shape += op.Kind[:1]
 		if op.Kind == "wrong" && accepted {
 			res.violate("wrong-code-accepted", "op %d: wrong code accepted (history %s)", i, shape)
@@ -293,7 +319,7 @@ func c14CheckTOTP(c c14TOTPCase) *vResult {
 			}
 			continue // not evaluated: the gate time does not move
 		}
-		lastGate = virt
+		gate0, gate1, advSinceGate, haveGate = t0, t1, 0, true
 		if mode == "normal" && fails > 0 && virt-lastFail > 23*time.Hour {
 			mode = "unknown" // the failure counter may or may not have been reset
 		}
@@ -340,7 +366,7 @@ func atoiSafe(s string) int {
 
 func TestVerifC14TOTP(t *testing.T) {
 	vRunRapid(t,
-		"rapid: histories (2-16 ops, often ending in 4-6 spaced failures then the right code) over {right code, wrong code, advance by 0-1.5 s or 2.5 s-26 h (time shifting; the band around the 2 s threshold is never generated)}; weak reference limiter: nothing accepted < 2 s after an evaluated attempt; right code refused within 30 min of the 5th consecutive failure; right code accepted when no failure is on record; non-trivial = >= 5 failures or a < 2 s retry; distinct = history shape",
+		"rapid: histories (2-16 ops, often ending in 4-6 spaced failures then the right code) over {right code, wrong code, advance by 0 s-26 h incl. 1.25-1.85 s and 2.0-2.1 s (time shifting; a verdict at the 2 s threshold is only taken when the interval the server can have measured lies entirely on one side)}; weak reference limiter: nothing accepted < 2 s after an evaluated attempt; right code refused within 30 min of the 5th consecutive failure; right code accepted when no failure is on record; non-trivial = >= 5 failures or a < 2 s retry; distinct = history shape",
 		c14GenTOTP, c14CheckTOTP)
 }
 
